@@ -302,6 +302,44 @@ def run(ctx):
                               "read_swanow on two overlapping cycles: %s" % probs[0][:300], {"seed": seed})
             else:
                 ctx.replayed()
+        # ---- several TRIAXYS files of which the later ones resolve fewer frequencies than the first (same initial frequency and
+        # spacing): the reader puts them on the first file's grid; every density a file gives at a frequency of that grid - its own
+        # highest one included - comes back unchanged, and there is no energy above a file's highest frequency
+        for i in range(6 if ctx.quick else 60):
+            seed = "triaxys-nf-%d-%d" % (ctx.seed, i)
+            crng = random.Random(seed)
+            case = I.random_case("triaxys", crng, ntimes=3, nfreq=crng.choice((4, 5, 6)), shuffle=False, toff=0)
+            case["names"] = "time"
+            nf0 = len(case["freq"])
+            cut = [nf0, crng.randint(2, nf0 - 1), crng.randint(2, nf0)]
+            case["nf_per_time"] = cut
+            d5 = os.path.join(tmp, "tnf%d" % i)
+            os.makedirs(d5)
+            ctx.case(("triaxys-fewer-frequencies", seed), True)
+            try:
+                arg = I.encode(case, d5)
+                ds = I.read(arg, case).load().sortby("time")
+                e = np.asarray(case["E"], float)
+                exp = I.expected(case)
+                want = np.asarray(exp["efth"] if "efth" in exp else exp["ef"], float).copy()
+                order = np.argsort(np.array(case["times"]).astype("datetime64[s]").astype("int64"), kind="stable")
+                for pos, it in enumerate(order):
+                    want[pos, cut[it]:] = 0.0
+                got = np.asarray(ds.efth.transpose("time", "freq", ...).values, float)
+                probs = []
+                if got.shape != want.shape:
+                    probs.append("shape %s, expected %s" % (got.shape, want.shape))
+                elif not np.allclose(got, want, rtol=1e-6, atol=1e-12):
+                    k = np.unravel_index(np.argmax(np.abs(got - want)), got.shape)
+                    probs.append("efth at (time %d, freq index %d) is %.6g, the file says %.6g (files resolve %s frequencies)" % (k[0], k[1], got[k], want[k], cut))
+            except Exception as ex:  # noqa
+                probs = ["reader raised %s: %s" % (type(ex).__name__, str(ex)[:150])]
+            shutil.rmtree(d5, ignore_errors=True)
+            if probs:
+                ctx.violation({"format": "triaxys", "variant": "fewer-frequencies-in-later-files", "clause": "efth"},
+                              "read_triaxys on files with different frequency counts: %s" % probs[0][:300], {"seed": seed, "cut": cut})
+            else:
+                ctx.replayed()
         # ---- the SWAN ASCII file as a writer/reader protocol (SwanFile.tla): model-checked, replayed into the real writer and
         # reader, and every recorded read validated by SwanFileTrace.tla
         from harness import swanfile_ext
